@@ -1,9 +1,15 @@
 #!/bin/sh
-# usage: seed_run.sh <seed.diff> <Cxx> [Cyy ...]   — apply to /repo, run the quick checks, undo
+# usage: seed_run.sh <seed.diff> <Cxx> [Cyy ...]   — apply to /repo, run the quick checks, undo.
+# Evidence files and generated Lean files are restored afterwards (they must describe the unchanged tree).
 DIFF=$1; shift
-git -C /repo apply "$DIFF" || { echo "PATCH DOES NOT APPLY"; exit 3; }
+SAVE=$(mktemp -d /tmp/seedrun.XXXXXX)
+cp /verif/evidence/*.json $SAVE/ 2>/dev/null
+git -C /repo apply "$DIFF" || { echo "PATCH DOES NOT APPLY"; rm -rf $SAVE; exit 3; }
 for p in "$@"; do
   VERIF_NO_ESCALATE=${VERIF_NO_ESCALATE:-} python3 /verif/tools/check.py $p 2>&1 | grep -E "^(VIOLATION|OK|KNOWN|INFRA)" | head -4
 done
 git -C /repo checkout -- .
 git -C /repo status --short | head -3
+cp $SAVE/*.json /verif/evidence/ 2>/dev/null
+rm -rf $SAVE
+python3 /verif/tools/gen_lean.py > /dev/null
